@@ -4,7 +4,7 @@
 (* over {value kind} x {prop name} plus the special kinds, on an element   *)
 (* and on a component; nested component trees for slot flags.              *)
 (***************************************************************************)
-EXTENDS AttrsFold, SequencesExt
+EXTENDS AttrsFold, SlotFlagsOps, SequencesExt
 
 CONSTANTS MaxAttrs, Names3, TreeDepth
 
@@ -52,10 +52,10 @@ AttrCases == {[kind |-> "attrs", elem |-> Elem(h, as, <<>>), opts |-> Opt(ton, T
 (* nested component trees: children drawn from bound/unbound identifiers, text, elements, components *)
 RECURSIVE Trees(_)
 Leafs == {ChExpr(Ident("bi", TRUE, PVNode("pvb"))), ChExpr(Ident("ui", FALSE, PVNode("pvu"))), ChText(<<"a">>),
-          ChExpr(Call("gk", PVNode("pvk")))}
+          ChExpr(Call("gk", PVNode("pvk"))), ChSpread(Ident("bs", TRUE, Arr(<<PVNode("pvs")>>)))}
 Trees(d) ==
   IF d = 0 THEN Leafs
-  ELSE Leafs \cup {ChElem(Elem(t, <<>>, cs)) : t \in {TagComp("A" \o ToString(d), FALSE, Undef), TagHtml("div")},
+  ELSE Leafs \cup {ChElem(Elem(t, <<>>, cs)) : t \in {TagComp("A" \o ToString(d), FALSE, Undef), TagHtml("div"), TagFrag},
                                               cs \in SeqsFromTo(Trees(d - 1), 1, 2)}
 TreeCases == {[kind |-> "tree", elem |-> Elem(TagComp("Root", FALSE, Undef), <<>>, cs), opts |-> Opt(FALSE, opt)] :
                 cs \in SeqsFromTo(Trees(TreeDepth), 1, 2), opt \in BOOLEAN}
